@@ -18,6 +18,12 @@ pub struct StaticResourceController;
 
 impl Controller for StaticResourceController {
     fn is_matching(request: &Request, _connection: &ConnectionInfo) -> bool {
+        // only origin-form targets map to files; anything else would be glued to the
+        // placeholder host below (e.g. ':x' read as a port, an empty path)
+        if !request.request_uri.starts_with(SYMBOL.slash) {
+            return false
+        }
+
         let url_array = ["http://", "localhost", &request.request_uri];
         let url = url_array.join(SYMBOL.empty_string);
 
